@@ -216,9 +216,10 @@ class Gen:
             opts += [(6, 'index'), (3, 'sum'), (2, 'len'), (2, 'lminmax')]
         if self.vars_of(fn, 'T'):
             opts.append((3, 'fst'))
+        # main may call every helper; a helper may call the helpers defined before it (chains of depth 2+)
         callable_h = [h for h in self.helpers if h[2] == 'R']
-        if callable_h and fn.name not in [h[0] for h in self.helpers]:
-            opts.append((8, 'call'))
+        if callable_h:
+            opts.append((8 if fn.is_main else 5, 'call'))
         k = ch.weighted(opts)
         if k == 'var':
             return ch.choice(vs) if vs else self.lit()
@@ -347,7 +348,7 @@ class Gen:
         if ls:
             opts += [(3, 'var'), (2, 'slice-copy')]
             if self.p.comprehension:
-                opts += [(5, 'comp'), (2, 'comp-zip'), (2, 'comp-enum')]
+                opts += [(5, 'comp'), (2, 'comp-zip'), (2, 'comp-enum'), (2, 'comp2')]
             if self.p.slices:
                 opts += [(3, 'slice')]
         if self.p.comprehension:
@@ -384,6 +385,17 @@ class Gen:
             body = self.expr_R(fn, max(1, d - 1))
             del fn.env[v]
             return f'[{body} for {v} in {l}]', fn.len_lb.get(l, 0)
+        if k == 'comp2':
+            l1, l2 = ch.choice(ls), ch.choice(ls)
+            w = fn.fresh('e')
+            fn.env[v] = 'R'
+            fn.env[w] = 'R'
+            body = self.expr_R(fn, max(1, d - 1))
+            del fn.env[v]
+            del fn.env[w]
+            self.features.add('comprehension-2gen')
+            n2 = ch.int(0, 2)
+            return f'[{body} for {v} in {l1} for {w} in range({n2})]', fn.len_lb.get(l1, 0) * n2
         if k == 'comp-range':
             n = ch.int(0, 4)
             fn.env[v] = 'R'
@@ -497,7 +509,13 @@ class Gen:
             self.features.add('list-store')
         elif k == 'tuple':
             a, b = fn.fresh('v'), fn.fresh('v')
-            out.append(f'{ind}{a}, {b} = {self.expr(fn, "T", ed - 1)}')
+            if ch.bool(0.3):
+                c = fn.fresh('v')
+                out.append(f'{ind}({a}, ({b}, {c})) = ({self.expr_R(fn, ed - 1)}, {self.expr(fn, "T", ed - 1)})')
+                fn.env[c] = 'R'
+                self.features.add('tuple-destructure-nested')
+            else:
+                out.append(f'{ind}{a}, {b} = {self.expr(fn, "T", ed - 1)}')
             fn.env[a] = 'R'
             fn.env[b] = 'R'
             self.features.add('tuple-destructure')
@@ -727,7 +745,8 @@ def gen_program(ch: Chooser, profile: Profile | None = None) -> Program:
 from fractions import Fraction
 
 R_POOL = [0, 1, 2, 3, -1, 7, 0.5, 0.1, -2.25, 3.75, 1e-3, 1e10, 100.0, 1.0000001, 0.3, -0.0, 1e-320,
-          float('inf'), float('-inf'), float('nan'), Fraction(1, 3), Fraction(-5, 7), 255, 65504.0, 1e-8, 12345.678]
+          float('inf'), float('-inf'), float('nan'), Fraction(1, 3), Fraction(-5, 7), 255, 65504.0, 1e-8, 12345.678,
+          2 ** 53 + 1, -(2 ** 64) - 3, Fraction(2 ** 70 + 1, 2 ** 10), 6, 12]
 
 
 def gen_inputs(ch: Chooser, prog: Program, specials=True):
